@@ -568,8 +568,8 @@ class McStateExtra(TlbScheme):
             raise BlockError(f'McStateExtra deserialization error expected flags <= 1, got: {flags}')
         validator_info = ValidatorInfo.deserialize(ref)
         prev_blocks = OldMcBlocksInfo.deserialize(ref)
+        ref.load_bits(65)  # the root extra of the HashmapAugE (KeyMaxLt: key:Bool max_end_lt:uint64), which load_hashmap_aug_e leaves unread
         after_key_block = ref.load_bool()
-        ref.load_bits(65)  # TODO why ?
         last_key_block = ExtBlkRef.deserialize(ref) if ref.load_bit() else None
         block_create_stats = None
         if bin(flags)[-1] == '1':
